@@ -1534,9 +1534,12 @@ def _emit_block(
                     f"{indent}__redu_lcd_write_aligned({info['object']}, {info['cols_var']}, 0, 0, {_string_expr(node.top)}, {clear_expr}, {_align_enum(node.top_align)});"
                 )
             if node.bottom is not None:
+                # a one-row display has no second row (writing to it would land on row 0)
+                lines.append(f"{indent}if ({info['rows_var']} > 1) {{")
                 lines.append(
-                    f"{indent}__redu_lcd_write_aligned({info['object']}, {info['cols_var']}, 0, 1, {_string_expr(node.bottom)}, {clear_expr}, {_align_enum(node.bottom_align)});"
+                    f"{indent}  __redu_lcd_write_aligned({info['object']}, {info['cols_var']}, 0, 1, {_string_expr(node.bottom)}, {clear_expr}, {_align_enum(node.bottom_align)});"
                 )
+                lines.append(f"{indent}}}")
             continue
 
         if isinstance(node, LCDClear):
